@@ -5,6 +5,7 @@ O2  the NOT encoding (xor with constant 1) is the only special case of the final
 O3  the de-duplication switch only switches the cache
 O4  sibling consistency of the xor-cancellation rewrites: the operand tested for cancellation is not the one returned
 O5  the folding table of optimize_and / optimize_xor (x&0, x&1, x&x, x^0, x^x) returns the right operand
+O7  and-absorption rewrites of push_and ((x1&x2)&(y1&y2) with a shared input, (x1&x2)&x1) keep every input of both operands
 O6  `negated` records exactly (operand, new gate) and (new gate, operand) under the `== 1` test of the other operand
 """
 from .. import mir
@@ -432,5 +433,111 @@ def rule_o6(ctx):
     return res
 
 
+def rule_o7(ctx):
+    """AND-absorption rewrites of push_and keep every input: (x1 & x2) & (y1 & y2) with a shared input, (x1 & x2) & y with y an input."""
+    res = RuleResult("O7", "and-absorption rewrites of push_and still contain every input of both operands")
+    fid = "circuit::CircuitBuilder::push_and"
+    body = ctx.body(fid)
+
+    def item(op):
+        """symbolic items an operand may be: 'x', 'y', ('x', i), ('y', j) for inputs of the AND gate stored at x / y"""
+        out = set()
+        if op["k"] not in ("copy", "move"):
+            return out
+        for (r, p) in body.trace(op["place"], through={}):
+            if r == ("arg", 2) and not p:
+                out.add("x")
+            elif r == ("arg", 3) and not p:
+                out.add("y")
+            elif r[0] == "call" and "as And" in p:
+                k = p.index("as And")
+                i = p[k + 1] if k + 1 < len(p) else None
+                t = body.term(r[1])
+                who = set()
+                for a in t["args"][1:]:
+                    for (r2, p2) in body.deep_sources(a, 3):
+                        if r2 == ("arg", 2) and not p2:
+                            who.add("x")
+                        elif r2 == ("arg", 3) and not p2:
+                            who.add("y")
+                if len(who) == 1 and i in ("0", "1"):
+                    out.add((next(iter(who)), i))
+                else:
+                    out.add("?")
+            elif r[0] == "call" and "as Xor" in p:
+                out.add("xor-input")
+        return out
+
+    def nsuccs(b):
+        return [x for x in body.succs(b) if not body.blocks[x]["cleanup"]]
+    # equality tests and the straight-line region behind their true edge
+    guards = []  # (pair, set of blocks reached in a straight line from the true edge)
+    for b, blk in enumerate(body.blocks):
+        for st in blk["stmts"]:
+            if st["k"] == "assign" and st["rv"]["k"] == "binop" and st["rv"]["op"] == "Eq":
+                l, r = item(st["rv"]["l"]), item(st["rv"]["r"])
+                if len(l) != 1 or len(r) != 1:
+                    continue
+                d = st["place"]["l"]
+                for x in range(body.n):
+                    tt = body.term(x)
+                    if tt and tt["k"] == "switch" and tt["discr"]["k"] in ("copy", "move") and tt["discr"]["place"]["l"] == d:
+                        false_t = {tg for v, tg in tt["targets"] if v == 0}
+                        for s_ in nsuccs(x):
+                            if s_ in false_t:
+                                continue
+                            line = set()
+                            cur = s_
+                            while cur not in line:
+                                line.add(cur)
+                                nx = nsuccs(cur)
+                                if len(nx) != 1 or (body.term(cur) and body.term(cur)["k"] == "switch"):
+                                    break
+                                cur = nx[0]
+                            guards.append(((next(iter(l)), next(iter(r))), line, st["sp"]))
+    n = 0
+    for b, blk in enumerate(body.blocks):
+        if blk["cleanup"]:
+            continue
+        rets, sp = set(), None
+        for st in blk["stmts"]:
+            if st["k"] == "assign" and st["place"]["l"] == 0 and not st["place"]["p"] and st["rv"]["k"] == "use":
+                rets |= item(st["rv"]["op"])
+                sp = st["sp"]
+        t = blk["term"]
+        if t and t["k"] == "call" and t["dest"]["l"] == 0 and not t["dest"]["p"] and mir.callee(t) == fid:
+            for a in t["args"][1:]:
+                rets |= item(a)
+            sp = t["sp"]
+        if not rets or "xor-input" in rets:
+            continue
+        reaching = [(pair, gsp) for (pair, line, gsp) in guards if b in line]
+        if not reaching:
+            continue
+        n += 1
+        for (pair, gsp) in reaching:
+            cov = set(rets)
+            for _ in range(3):
+                for w in ("x", "y"):
+                    if w in cov:
+                        cov |= {(w, "0"), (w, "1")}
+                if pair[0] in cov or pair[1] in cov:
+                    cov |= set(pair)
+                for w in ("x", "y"):
+                    if (w, "0") in cov and (w, "1") in cov:
+                        cov.add(w)
+            if "?" in rets:
+                res.bad(Finding("O7", fid, "rewrite with an operand of unknown origin", "cannot name the inputs this rewrite returns", sp))
+            elif "x" in cov and "y" in cov:
+                res.ok({"site": "line %d" % sp[1], "guard": "%s == %s" % pair, "returns": sorted(map(str, rets))})
+            else:
+                missing = [w for w in ("x", "y") if w not in cov]
+                res.bad(Finding("O7", fid, "rewrite under %s == %s drops an input of %s" % (pair[0], pair[1], " and ".join(missing)),
+                                "the rewritten conjunction %s no longer contains every input of the requested x & y when only %s == %s is known" % (sorted(map(str, rets)), pair[0], pair[1]), sp))
+    if n < 4 and not res.findings:
+        raise AnchorMissing("O7: expected the and-absorption rewrites of push_and (4 guarded returns on the pinned tree), found %d" % n)
+    return res
+
+
 def run(ctx):
-    return ctx.run_rules([rule_o1, rule_o2, rule_o3, rule_o4, rule_o5, rule_o6])
+    return ctx.run_rules([rule_o1, rule_o2, rule_o3, rule_o4, rule_o5, rule_o6, rule_o7])
